@@ -25,9 +25,11 @@ TRUSTED = [
     "translator + generated-implementation tie as in C01/C02 (3-way bit-level correspondence each run)",
     "platform libm oddness/evenness (atan2, sin, cos, log1p, ...) is observed, not assumed",
 ]
-LEVEL_TEXT = ("Partial proof. Theorems (all inputs, bit-exact model, regenerated programs): complex `square` commutes with conjugation and is even, real `square`/`absolute` are even — "
-              "for every input pattern incl. NaN/inf/zeros, by kernel-checked program identities lifted through proved softfloat laws (neg/abs/mul sign laws). "
-              "The symmetries of the libm-based algorithms (conjugation, oddness, rotations, acos/asin) are decided by oracle-free bit-pattern search on the generated implementation.")
+LEVEL_TEXT = ("Partial proof. Theorems (bit-exact softfloat, regenerated programs, EVERY input pattern incl. NaN/inf/zeros/subnormals): complex `square` commutes with "
+              "conjugation (real parts identical, imaginary parts negated, NaN matching NaN; complex64 and complex128), real `square` and `absolute` are even — from sign laws "
+              "of the softfloat proved for every format (|-a| = |a|, a+b = b+a, ab = ba, a-(-b) = a+b, (-a)b = -(ab) up to the single NaN). "
+              "The symmetries of the libm-based algorithms (conjugation, oddness, rotations, acos/asin) and evenness of complex square are decided by oracle-free "
+              "bit-pattern search on the generated implementation.")
 LEVEL_NOTE = "Symmetries of libm-based algorithms: search only (bit patterns from the same generated implementation)."
 TECHNIQUE = "Lean 4 proof of softfloat sign laws + kernel-checked program identities (square/absolute) ; oracle-free bit-pattern search for the rest"
 
